@@ -10,6 +10,7 @@ import (
 	"sort"
 	"strings"
 	"sync"
+	"time"
 
 	"github.com/oneconcern/datamon/pkg/cafs"
 	"github.com/oneconcern/datamon/pkg/core"
@@ -172,6 +173,7 @@ func puRun(cs *puCase, r *gen.Rand) {
 	puApply(w, cs.Pre, r, live, orig, &sec, tmp)
 	indexed := map[string]bool{}
 	cs.BuildOk = false
+	var buildEnd time.Time
 	for ai := range cs.Attempts {
 		a := &cs.Attempts[ai]
 		a.Err, a.Panic = "", false
@@ -210,6 +212,7 @@ func puRun(cs *puCase, r *gen.Rand) {
 			}
 		}()
 		os.RemoveAll(dir)
+		buildEnd = time.Now().UTC()
 		for i, rule := range f.Rules {
 			if i < len(a.Faults) {
 				a.Faults[i].Fired = rule.Fired
@@ -264,7 +267,6 @@ func puRun(cs *puCase, r *gen.Rand) {
 		wa.WrapMeta = func(s storage.Store) storage.Store { return &memstore.Flaky{Store: s, F: f, Name: "meta"} }
 		wa.WrapBlob = func(s storage.Store) storage.Store { return &memstore.Flaky{Store: s, F: f, Name: "blob"} }
 		dir, _ := os.MkdirTemp(tmp, "kv")
-		var res *core.PurgeBlobs
 		func() {
 			defer func() {
 				if p := recover(); p != nil {
@@ -273,12 +275,13 @@ func puRun(cs *puCase, r *gen.Rand) {
 			}()
 			var err error
 			// the blob store as the command finds it
-			res, err = core.PurgeDeleteUnused(wa.Stores(), core.WithPurgeLocalStore(dir), core.WithPurgeLogger(world.Nop), core.WithPurgeParallel(4),
+			_, err = core.PurgeDeleteUnused(wa.Stores(), core.WithPurgeLocalStore(dir), core.WithPurgeLogger(world.Nop), core.WithPurgeParallel(4),
 				core.WithPurgeDryRun(true))
 			if err == nil {
 				for _, k := range w.Blob.SortedKeys() {
 					at, _ := w.Blob.GetAttr(context.Background(), k)
-					cs.Before = append(cs.Before, puBlob{Key: k, Newer: res.IndexTime.Before(at.Updated)})
+					// newer than the index: written after the index build had ended (nothing is written during it)
+					cs.Before = append(cs.Before, puBlob{Key: k, Newer: at.Updated.After(buildEnd)})
 				}
 				os.RemoveAll(dir)
 				dir, _ = os.MkdirTemp(tmp, "kv")
@@ -368,7 +371,7 @@ func puHasPurge(steps []puStep) bool {
 }
 
 var puContents = []string{"alpha", "bravo", "charlie-with-a-longer-content-that-spans-more-than-one-leaf-of-sixty-four-bytes-so-that-leaves-exist-0123456789",
-	"delta", "echo-is-also-long-enough-to-need-two-leaves-xxxxxxxxxxxxxxxxxxxxxxxxxxxxxxxxxxxxxxxxxxxxxxxxxxxxxxxxxxxxxxxxxxxxxxxxxxx", "foxtrot"}
+	"delta", "", "echo-is-also-long-enough-to-need-two-leaves-xxxxxxxxxxxxxxxxxxxxxxxxxxxxxxxxxxxxxxxxxxxxxxxxxxxxxxxxxxxxxxxxxxxxxxxxxxx", "foxtrot"}
 
 func puTree(r *gen.Rand) []world.File {
 	var fs []world.File
@@ -400,6 +403,17 @@ func puGen(prop string, r *gen.Rand, i int) *puCase {
 	if prop == "C13" {
 		switch i % 6 {
 		case 0: // interrupted and resumed
+			if i%12 == 0 { // ... over more than ten chunks
+				var fs []world.File
+				for k := 0; k < 9; k++ {
+					fs = append(fs, world.File{Name: fmt.Sprintf("k%d", k), Data: []byte(fmt.Sprintf("distinct content %d of case %d", k, i))})
+				}
+				cs.Pre = append(cs.Pre, puStep{Op: "upload", Repo: "ra", Files: fs})
+				cs.Chunk = 1
+				cs.Attempts = []puAttempt{{CrashAt: r.Range(12, 15)}, {Resume: true}}
+				cs.FaultFree = false
+				break
+			}
 			n := r.Range(1, 2)
 			cs.Attempts = nil
 			for k := 0; k < n; k++ {
